@@ -15,5 +15,5 @@ CONSTANTS
     MaxJumps = 1
 SPECIFICATION Spec
 VIEW View
-INVARIANTS ClientSound
+INVARIANTS ClientSound GenPrint
 CHECK_DEADLOCK FALSE
